@@ -13,6 +13,24 @@ pub const PIECE_CH: [[&str; 6]; 2] = [
     ["p", "n", "b", "r", "q", "k"],
 ];
 
+/// letter of a man, by matching on the variants (not on the enums' numeric values, which are the
+/// crate's own business)
+pub fn piece_ch(c: Color, p: Piece) -> &'static str {
+    let i = match c {
+        Color::White => 0,
+        Color::Black => 1,
+    };
+    let j = match p {
+        Piece::Pawn => 0,
+        Piece::Knight => 1,
+        Piece::Bishop => 2,
+        Piece::Rook => 3,
+        Piece::Queen => 4,
+        Piece::King => 5,
+    };
+    PIECE_CH[i][j]
+}
+
 pub fn sq(i: u8) -> Pos {
     Pos::from_u8(i).expect("square index")
 }
@@ -109,7 +127,7 @@ pub fn board_cells(board: &Board) -> Vec<&'static str> {
                 if raw[c].contains(p) {
                     for pc in Piece::all() {
                         if raw[pc].contains(p) {
-                            ch = PIECE_CH[c as usize][pc as usize];
+                            ch = piece_ch(c, pc);
                         }
                     }
                 }
@@ -223,7 +241,7 @@ pub fn file_of(i: i64) -> Option<File> {
 pub fn piece_of_letter(ch: &str) -> Option<(Color, Piece)> {
     for c in Color::all() {
         for p in Piece::all() {
-            if PIECE_CH[c as usize][p as usize] == ch {
+            if piece_ch(c, p) == ch {
                 return Some((c, p));
             }
         }
